@@ -5475,7 +5475,10 @@ func (p *ptr) plan(stmts []ast.Stmt, rest string) string {
 		return p.plan(append(append([]ast.Stmt{}, x.List...), tail...), rest)
 	case *ast.IfStmt:
 		if x.Init != nil {
-			p.fail(x, "if with an init statement")
+			// if init; cond { … }: the init statement, then the test (its variables are not used by the plan)
+			y := *x
+			y.Init = nil
+			return cons(p.events(x.Init), p.plan(append([]ast.Stmt{&y}, tail...), rest))
 		}
 		c, isErr := p.cond(x.Cond)
 		if isErr {
